@@ -313,7 +313,7 @@ def run(model, tier="quick"):
     from ..rules.fresh import fresh_rule
     if "R-FRESH" not in res.rules:
         res.rules.append("R-FRESH")
-    fresh_rule(model, res, scope=('demeter/core/',))
+    fresh_rule(model, res, scope=('demeter/core/', 'demeter/strategy/'))
     res.assumptions = ["the index of the market data is sorted (data)", "user hooks do not mutate the actuator"]
     res.not_decided = ["monotonicity of the index (data)", "R-RECORD over every market operation (each operation's record is part of its ledger "
                        "check under C03/C10/C14/C15/C17)"]
